@@ -208,11 +208,11 @@ impl BlockScope {
         let binders = candidates.iter().try_fold(
             im::HashMap::<VarName, DefId>::new(),
             |binders, candidate| {
-                // A pattern's binders come in hash order: visit them in source
-                // order so that the duplicate reported first is always the same.
-                let mut found =
-                    candidate.binder().binders(&resolver.bitter).into_iter().collect::<Vec<_>>();
-                found.sort_by_key(|(_, definition)| *definition);
+                // Visit a pattern's binders in source order, so that the
+                // duplicate reported first is always the same, and without
+                // merging them first: a name written twice in one pattern is
+                // as much a duplicate as one contributed by two bindings.
+                let found = binders_in_order(&candidate.binder(), &resolver.bitter);
                 found.into_iter().try_fold(
                     binders,
                     |binders, (name, definition)| -> Result<_> {
